@@ -1,7 +1,7 @@
 """C07 — broker connection (broker/client.go): see coq/Broker/Conn.v, ConnSpec.v, coq/Props/C07.v."""
 import os, sys
 sys.path.insert(0, os.path.dirname(os.path.abspath(__file__)))
-import _bc, _sys
+import _bc, _sys, mb_common
 
 ASSUMPTIONS = _bc.ASSUMPTIONS
 
@@ -26,3 +26,22 @@ def run(ck):
                       "(whatever becomes of the second connection, handed on exactly once); backend held at the entry of Publish: no PUBACK / PUBCOMP / delivery before it accepts (ack_after_accept)")
     if ex:
         ck.samples = ck.samples[:4] + [l for l in ex if l.startswith("direct ")][:3]
+    # backend stage: "acknowledged only after the backend has accepted" and "handed on exactly once" rest on Backend.Publish being
+    # all-or-nothing — a Publish that returns an error (the publisher's own matching queue is full) must not have delivered to anybody,
+    # otherwise the unacknowledged publisher's retransmitted PUBLISH / PUBREL delivers a second time (Props/C06.v C06_queue_full_atomic;
+    # seed C07-11).  The real MemoryBackend, operation by operation against Broker/Backend.v, families ownfull and random only.
+    if ck.build_harness("backend"):
+        os.environ["MB_FAMILY"] = "ownfull,random"
+        try:
+            bpath, _ = ck.harness("mb", out_name="mb_for_c07.txt", timeout=3000)
+        finally:
+            os.environ.pop("MB_FAMILY", None)
+        blines = ck.model("backend", "mb", bpath)
+        bex = open(bpath).read().splitlines()
+        nb = 0
+        for l in blines:
+            f = l.split()
+            if l.startswith("propfail ") and f[2] == "queue_full_atomic":
+                ck.fail_input("backend_refusal_atomic", l, mb_common.history_lines(bex, f[1]) if "/" in f[1] else [l])
+            nb += 1
+        ck.rule += "; plus the backend stage (real MemoryBackend step by step, families ownfull and random): a refused Publish has delivered to nobody (queue_full_atomic)"
